@@ -74,7 +74,7 @@ func (h rtHit) compact() []any {
 	return []any{h.Path, h.Verb, h.Method, h.Kind, h.ID, h.Capture, h.Allow}
 }
 
-var rawOf = map[string]string{"e": "", "p25": "100%25", "p2F": "x%2Fy", "dbl": "%2541", "uni": "%C3%A9", "p3A": "x%3Ay"}
+var rawOf = map[string]string{"e": "", "p25": "100%25", "p2F": "x%2Fy", "dbl": "%2541", "uni": "%C3%A9", "p3A": "x%3Ay", "p3F": "w%3Fz"}
 
 func rawSeg(t string) string {
 	if r, ok := rawOf[t]; ok {
